@@ -40,8 +40,10 @@ def _collect_implicit_usages(
     for inp in node.inputs:
         if inp is None or inp.graph is subgraph:
             continue
-        # This is a closed variable, add to implicit usages of all graphs that enclose it
-        for g in reversed(graph_stack):
+        # This is a closed variable, add to implicit usages of all graphs that enclose it.
+        # The analysed root (graph_stack[0]) has no entry of its own: a value that is
+        # defined in it, or that comes from beyond it, is implicit for the nested graphs only.
+        for g in reversed(graph_stack[1:]):
             if g is inp.graph:
                 break
             implicit_usages[g].add(inp)
